@@ -82,6 +82,11 @@ CLAIMED["C20"] = dict(
    text="AssetDefinition.matches equals the documented pattern for each of the seven kinds; _get_case_insensitive_path returns the join of the first listed entry of the containing directory whose name equals the requested one ignoring case (loop invariant) or None; _asset_property for each kind returns the named file (normalised) when the simfile names one and it is found, else the first listed entry matching the pattern joined to the directory and normalised, else None, and remembers the answer; a cached answer is returned without a new lookup; SimfilePack.banner picks an image inside the pack by extension priority, else a same-named image beside it, else None (five unrolled scans with a loop invariant each). NativeOSFS and generic PyFilesystem path functions both covered.",
    note=_DIR_NOTE + " 'Never a non-existent path' follows from the postcondition (join of a listed entry) and T-FS; the disc-by-name lookup is not claimed, as the property says.",
    technique="contract-based deductive verification: loop invariants over prefix spec functions on a ghost directory tree", design_ref="6/C20")
+CLAIMED["C10"] = dict(
+   category="other",
+   text="Deductive proof (all inputs) of ungroup_notes per element: for an arbitrary grouped item and arbitrary pending tails it first yields exactly the pending tails that precede the item (drain-loop invariant over prefix functions of an abstract heap), then yields / drops / raises about a plain note exactly per the option iff a pending tail sits on its column, turns a NoteWithTail into a head with all five fields and leaves Note(tail_beat, column, TAIL, player, None) pending, and yields every remaining tail at the end. The composition with group_notes (nothing added, dropped or duplicated; order) is a bounded stand-in on the property's 2-column grid, labelled bounded - hence level 'other'.",
+   note="Trusted: heapq as an abstract min-priority queue under `<` (pyvc/heaps.py), isinstance on NamedTuple classes, Note.__lt__ = position order (C07), generator laziness and termination of the drain loops not modelled, VC generator, z3/cvc5.",
+   technique="contract-based deductive verification (loop invariants + relational per-iteration obligations over an abstract heap) with one bounded stand-in", design_ref="6/C10")
 NA_REASON = "not yet brought under contract in this session (work in progress; see DESIGN.md section 6 for the plan)"
 
 NA_TABLE = {}
